@@ -1722,7 +1722,9 @@ class Calendar(Component):
         """
         tzids = self.get_used_tzids()
         for timezone in self.timezones:
-            tzids.remove(timezone.tz_name)
+            # a VTIMEZONE can be unused, occur twice or lack its TZID
+            if "TZID" in timezone:
+                tzids.discard(timezone.tz_name)
         return tzids
 
     @property
